@@ -31,7 +31,7 @@ RULE = ("for routes of h = 1..8 hops over line/tree topologies: every single-fai
         "(j = 0..h-2) fails completely - plus the fault-free run, for ack-type and non-ack-type messages (quick: sampled "
         "types, h in {1,2,3,5,8}; thorough: all types 0..255 except those the network layer consumes x all h); seeded "
         "runs beyond with random double faults, cross traffic routed through the sender (a foreign NETWORK_ACK passes it while "
-        "its own never arrives - or does), a calibrated family (route_timeout set just above the measured NETWORK_ACK round trip, first hop deaf "
+        "its own never arrives - or does), a stream of system-type frames for the sender that outlasts its wait, a calibrated family (route_timeout set just above the measured NETWORK_ACK round trip, first hop deaf "
         "for 10-25 ms), frame objects still carrying another node's address, nodes with allow_multicast off / multicast_relay on, tx_timeout 5..150 ms, route_timeout 15..450 ms, MCU jitter. Non-trivial: "
         "route has an intermediate node; distinct = distinct abstract event sequences")
 ASSUMPTIONS = ["single-frame messages (<= 24 bytes): the property's scope", "chip/air model M1-M4, M7, M9",
@@ -145,6 +145,14 @@ def make(i, base_seed, tier):
             cross["delay_ms"] = xr.choice([0, 1, 2, 3, 4, 5, 6, 8])
             cross["slow_sender"] = True
             faults_desc = []
+    if i >= len(en) and late is None and cross is None and rng.random() < 0.08:
+        # a stream of system-type frames for the sender (its application asked for them: ret_sys_msg) arrives from its child during the
+        # whole wait and beyond, paced by the sender's own slower MCU - every poll of the wait finds a frame; the NETWORK_ACK never comes
+        mode = "unicast"
+        src, dst = 0o1, rng.choice([0o22, 0o222])
+        t = rng.choice([65, 100, 127, 191])
+        faults_desc = [{"kind": rng.choice(["nack", "fwd"]), "pos": 1}]
+        cross = {"from": 0o11, "to": 0o1, "delay_ms": 0, "type": rng.choice([200, 210, 255]), "slow_sender": False, "stream": True}
     path = netref.path(src, dst)
     faults = []
     for f in faults_desc:
@@ -194,12 +202,18 @@ def run(scn):
     return res
 
 
+def node_rate(node):
+    return 1.0
+
+
 def _run(scn, w, net, res):
     sim = w.sim
     for nd in scn["nodes"]:
         def setup(node, nd=nd):
             node.tx_timeout = scn["tx_timeout"]
             node.route_timeout = scn["route_timeout"]
+            if scn.get("cross") and scn["cross"].get("stream") and nd["addr"] == scn["src"]:
+                node.ret_sys_msg = True
             if nd["addr"] in scn.get("mc_off", ()):
                 node.allow_multicast = False
                 node.node_address = nd["addr"]
@@ -212,6 +226,12 @@ def _run(scn, w, net, res):
                 node.node_address = nd["addr"]
                 sim.count("readdressed_after_timeouts_were_set")
         kn = nd["knobs"]
+        if scn.get("cross") and scn["cross"].get("stream"):
+            # sender: a moderately slow MCU that wants to see system messages; the streaming child: a fast one
+            if nd["addr"] == scn["src"]:
+                kn = dict(kn, spi_overhead_us=400, spi_jitter_us=20)
+            elif nd["addr"] == scn["cross"]["from"]:
+                kn = dict(kn, spi_overhead_us=5, spi_jitter_us=2)
         if scn.get("cross") and scn["cross"].get("slow_sender") and nd["addr"] == scn["src"]:
             # a slow sender finds several frames in its RX FIFO in one pass (its own NETWORK_ACK and relayed ones)
             kn = dict(kn, spi_overhead_us=400, spi_jitter_us=100)
@@ -269,6 +289,16 @@ def _run(scn, w, net, res):
     if cross and cross["from"] in net.nodes:
         def do2(node):
             from circuitpython_nrf24l01.network.structs import RF24NetworkHeader, RF24NetworkFrame
+            if cross.get("stream"):
+                import circuitpython_nrf24l01.network.mixins as mx_
+                # keeps streaming until well after the sender's wait must have ended
+                t_end = mx_.time.monotonic_ns() / node_rate(node) + (scn["tx_timeout"] + scn["route_timeout"] + 600) * 1_000_000
+                n_ = 0
+                while mx_.time.monotonic_ns() / node_rate(node) < t_end and n_ < 2000:
+                    node.write(RF24NetworkFrame(RF24NetworkHeader(cross["to"], cross["type"]), bytes([n_ & 255]) * 8))
+                    n_ += 1
+                sim.count("system_frames_streamed_to_the_sender", n_)
+                return True
             return node.write(RF24NetworkFrame(RF24NetworkHeader(cross["to"], cross["type"]), b"cross"))
         net.hold(cross["from"], cross["delay_ms"] * MS)
         c2 = net.post(cross["from"], "write", do2)
